@@ -111,6 +111,8 @@ pub struct StdAlpha {
     pub blocks: Vec<u64>,
     pub prices: Vec<u128>,
     pub rel_prices: Vec<(u128, u128)>,
+    /// quote limits attached to the first liquidator's Liquidate calls
+    pub liq_limits: Vec<u128>,
 }
 
 impl StdAlpha {
@@ -127,6 +129,7 @@ impl StdAlpha {
             blocks: vec![15, 1200, 3900],
             prices: vec![8 * D, 10 * D, 12_500_000],
             rel_prices: vec![],
+            liq_limits: vec![0],
         }
     }
     pub fn acts(&self) -> Vec<Act> {
@@ -164,13 +167,16 @@ impl StdAlpha {
                         amt: a,
                     });
                 }
-                for by in &self.liquidators {
-                    acts.push(Act::Liq {
-                        by: by.to_string(),
-                        t: t.to_string(),
-                        v,
-                        limit: 0,
-                    });
+                for (i, by) in self.liquidators.iter().enumerate() {
+                    let zero = vec![0u128];
+                    for limit in if i == 0 { &self.liq_limits } else { &zero } {
+                        acts.push(Act::Liq {
+                            by: by.to_string(),
+                            t: t.to_string(),
+                            v,
+                            limit: *limit,
+                        });
+                    }
                 }
                 if self.self_liq {
                     acts.push(Act::Liq {
